@@ -69,7 +69,7 @@ impl Property for C10 {
         C10 { starts }
     }
     fn rule(&self) -> String {
-        format!("operation histories over {{sign with rsa4096, passphrase-protected rsa3072, ed25519, ecdsa-p256; clear; write+re-parse}} from {} starting packages (built without files, built with files, three rpmbuild-made assets incl. foreign-signed ones, one library-signed): ALL histories of length <= 3 (quick) / <= 4 (thorough) plus random histories of length 4..8, plus a sweep that signs each start package at thousands of consecutive timestamps (distinct signature values) and verifies each; the oracle (a model of the signing state) is evaluated after every step. Non-trivial = the history contains a sign that is later followed by a different sign or a clear; distinct by construction (enumerated) / by hash (random).", self.starts.len())
+        format!("operation histories over {{sign with rsa4096, passphrase-protected rsa3072, ed25519, ecdsa-p256; clear; write+re-parse}} from {} starting packages (built without files, built with files, three rpmbuild-made assets incl. foreign-signed ones, one library-signed): ALL histories of length <= 3 (quick) / <= 4 (thorough) plus random histories of length 4..8, plus a sweep that signs each start package at thousands of consecutive timestamps (distinct signature values) and verifies each; plus signing with two keys generated at run time whose 64-bit key ids start with a zero hex digit / a zero byte; the oracle (a model of the signing state) is evaluated after every step. Non-trivial = the history contains a sign that is later followed by a different sign or a clear; distinct by construction (enumerated) / by hash (random).", self.starts.len())
     }
     fn assumptions(&self) -> Vec<String> {
         vec![
@@ -78,7 +78,7 @@ impl Property for C10 {
         ]
     }
     fn required_labels(&self, _t: Tier) -> Vec<&'static str> {
-        vec!["signature-sweep", "resigned-with-other-key", "sign-then-clear", "foreign-start", "signer-rsa4096", "signer-rsa3072_protected", "signer-ed25519", "signer-ecdsa_p256"]
+        vec!["generated-key", "signature-sweep", "resigned-with-other-key", "sign-then-clear", "foreign-start", "signer-rsa4096", "signer-rsa3072_protected", "signer-ed25519", "signer-ecdsa_p256"]
     }
     fn phases(&self, tier: Tier) -> Vec<Phase<C10Case>> {
         let maxlen = tier.pick(3, 4) as u32;
@@ -100,6 +100,15 @@ impl Property for C10 {
                     let st = starts.as_ref().clone();
                     (proptest::sample::select(st), proptest::collection::vec(prop_oneof![6 => op_cheap(), 1 => Just(Op::Sign(1)), 2 => proptest::sample::select(vec![0u8, 2, 3]).prop_map(Op::SignNow), 2 => (0u8..3).prop_map(Op::SignFail)], 4..9)).prop_map(|(start, ops)| C10Case { start, ops, sweep: 0, sweep_key: 0, sweep_t0: 0 }).boxed()
                 }),
+            },
+            Phase::Enumerate {
+                name: "generated-keys",
+                total: 8,
+                exhaustive: false,
+                gen: {
+                    let st = self.starts.clone();
+                    Arc::new(move |i| if i < 8 { Some(C10Case { start: st[(i as usize / 2) % st.len()], ops: vec![], sweep: 4, sweep_key: 100 + (i % 2) as u8, sweep_t0: 1_600_000_000 + i as u32 }) } else { None })
+                },
             },
             Phase::Enumerate {
                 name: "signature-value-sweep",
@@ -140,7 +149,56 @@ fn header_bytes(p: &rpm::Package) -> Result<Vec<u8>, (String, String)> {
     Ok(w[seg.hdr.start..seg.hdr.end].to_vec())
 }
 
+/// sign with a key generated for the shape of its key id (leading zero digit / zero byte)
+fn generated_key_sweep(case: &C10Case, o: &mut Outcome) -> Result<(), (String, String)> {
+    let gen = crate::gen::keys::generated_keys();
+    if gen.is_empty() {
+        o.label("no-generated-keys");
+        return Ok(());
+    }
+    let g = &gen[(case.sweep_key - 100) as usize % gen.len()];
+    o.label("generated-key");
+    o.label(g.what);
+    let item = &pool()[case.start as usize % pool().len()];
+    let mut pkg = parse_pkg(&item.bytes)?;
+    let ks = keys();
+    o.evals = case.sweep as u64;
+    o.nontrivial = case.sweep as u64;
+    for i in 0..case.sweep {
+        let t = case.sweep_t0.saturating_add(i);
+        let r = panics::catch(|| -> Result<(), String> {
+            pkg.sign_with_timestamp(g.signer.clone(), t).map_err(|e| format!("sign failed: {e}"))?;
+            if i % 2 == 1 {
+                let mut w = Vec::new();
+                pkg.write(&mut w).map_err(|e| e.to_string())?;
+                pkg = rpm::Package::parse(&mut &w[..]).map_err(|e| e.to_string())?;
+            }
+            if let Err(e) = pkg.verify_signature(&g.verifier) {
+                return Err(format!("signed by the key with id {} ({}): its own key does not verify: {e}", g.key_id, g.what));
+            }
+            for v in 0..4 {
+                if pkg.verify_signature(&ks.verifiers[v]).is_ok() {
+                    return Err(format!("signed by the key with id {}: verification with the {} key is Ok", g.key_id, KEY_NAMES[v]));
+                }
+            }
+            match pkg.signature_key_ids() {
+                Ok(ids) if ids.len() == 1 && ids[0].to_lowercase() == g.key_id => Ok(()),
+                other => Err(format!("signed by the key with id {:?} ({}): signature_key_ids() = {:?}", g.key_id, g.what, other.map_err(|e| e.to_string()))),
+            }
+        });
+        match r {
+            Ok(Ok(())) => {}
+            Ok(Err(d)) => return Err((if d.contains("signature_key_ids") { "key-id" } else { "does-not-verify" }.into(), d)),
+            Err(p) => return Err(("panic".into(), p)),
+        }
+    }
+    Ok(())
+}
+
 fn sweep(case: &C10Case, o: &mut Outcome) -> Result<(), (String, String)> {
+    if case.sweep_key >= 100 {
+        return generated_key_sweep(case, o);
+    }
     o.label("signature-sweep");
     let item = &pool()[case.start as usize % pool().len()];
     let mut pkg = parse_pkg(&item.bytes)?;
